@@ -1,6 +1,7 @@
 import Pms.Props.C17
 import Pms.Props.C17Real
 import Pms.Props.C17Src
+import Pms.Props.C17Mod
 
 #print axioms Pms.LocalOrder.C17_tetra_def
 #print axioms Pms.LocalOrder.C17_tetra_perfect
@@ -42,3 +43,4 @@ import Pms.Props.C17Src
 #print axioms Pms.LocalOrder.C17_src_gyration
 #print axioms Pms.LocalOrder.C17_src_gyration_combos
 #print axioms Pms.LocalOrder.C17_src_statements
+#print axioms Pms.ModShape.C17_module_shape
